@@ -11,7 +11,7 @@ every registry history (registration, re-registration of the same or another cal
 re-declaration on the live object, removal - interleaved with calls AND happening while a call is in flight, i.e.
 during the evaluation of its arguments), every entry point, every provider behaviour (`rounds` is an arbitrary list
 of requested calls, the provider may use the registration API between rounds), every tool-body behaviour
-(return / raise), whatever the ROS latch, length guard and pathway detection decide.  The ceiling is the public
+(return / raise, and use of the registration API from inside the body), whatever the ROS latch, length guard and pathway detection decide.  The ceiling is the public
 attribute `allowed_capabilities`; re-assigning it on the live engine is an operation of the history and every
 execution is judged against the ceiling in force (`Ev.ceiling`).
 -/
@@ -290,6 +290,15 @@ example :
 example :
     let s := run ⟨true, true⟩ (init (some []))
       [.register "f" tFree, .metabolize .oxidative (.name "f") true [.register "f" tWrite], .call "f" []]
+    s.events.map (·.tool) = [tFree] ∧ s.reg.lookup "f" = some tWrite := by
+  decide
+
+/-- a tool body that uses the registration API while it runs - it installs a privileged tool under its own name: it
+    ran once (it was within the ceiling when it was vetted), the tool it installed is refused on every path -/
+example :
+    let s := run ⟨true, true⟩ (init (some []))
+      [.register "f" tFree, .script 2 [.register "f" tWrite], .call "f" [], .call "f" [],
+       .metabolize .oxidative (.name "f") true [], .loop 2 true [⟨[], [("f", [])]⟩]]
     s.events.map (·.tool) = [tFree] ∧ s.reg.lookup "f" = some tWrite := by
   decide
 
